@@ -205,3 +205,16 @@ func init() {
 		}
 	})
 }
+
+func init() {
+	extraStubs = append(extraStubs, func(e *Engine) {
+		e.Stubs["time.Now"] = func(in *Interp, fn *ssa.Function, args []Value) (Value, bool) {
+			z := in.zero(fn.Signature.Results().At(0).Type()).(Struct)
+			z[1] = in.Nondet("time.now", BVSort(64), "bv")
+			return z, true
+		}
+		e.Stubs["time.Since"] = func(in *Interp, fn *ssa.Function, args []Value) (Value, bool) {
+			return in.tb.BV(64, 0), true
+		}
+	})
+}
